@@ -1,6 +1,8 @@
 import F3.Proofs.ValidatorCached
 import F3.Proofs.ValidatorSound
 import F3.Proofs.ValidBridge
+import F3.Proofs.GenTie
+import F3.Gen.Validate
 /-!
 # C05 — Message validation is sound, complete when relevant, and history-independent
 
@@ -216,5 +218,52 @@ theorem accepted_message_meets_consensus_hypothesis (cfg : Cfg) (comt : Nat → 
         (F3.ValidBridge.absMsg m) := by
   obtain ⟨c, hc, hv⟩ := validate_sound cfg comt prog cache hs m hw h
   exact ⟨c, hc, F3.ValidBridge.validMsg_MsgValid Signed cfg.net c (hu c hc) m hv hsig hagg⟩
+
+/-! ## Regenerated: `validateByProgress` as it stands in `gpbft/validator.go` on this run
+
+`F3.Gen.Validate.validateByProgress` is translated from the source on every run
+(`tools/go2lean/targets.d/Validate.json`): the two tagless `switch`es as if / else-if chains, `uint64`
+additions wrapped, phase constants read from `gpbft/types.go`, the sentinel errors as the codes
+0 = `nil`, 1 = `ErrValidationTooOld`, 2 = `ErrValidationNotRelevant`, 3 = `ErrValidationNoCommittee`. -/
+
+/-- the return codes of `targets.d/Validate.json` -/
+def decodeProgress (c : Int) : Option Verdict :=
+  if c = 0 then none else if c = 1 then some .tooOld else if c = 2 then some .notRelevant else some .noCommittee
+
+/-- **The model's relevance window is the source's.** For every progress state, look-back and vote — the
+whole `uint64` range and beyond, wrap-around of `current.ID + committeeLookback`, `Instance + 1` and
+`Round + 1` included — the hand-written `byProgress` (which every other C05 theorem is about and the
+driver executes) returns exactly what the code regenerated from `validator.go` returns. An edit of the
+Go function either keeps this equality or breaks the build. -/
+theorem by_progress_is_the_codes (cfg : Cfg) (cur : Progress) (v : Payload) :
+    byProgress cfg cur v =
+      decodeProgress (F3.Gen.Validate.validateByProgress cur.id cur.phase cur.round v.inst v.phase v.round
+        cfg.lookback) := by
+  unfold byProgress F3.Gen.Validate.validateByProgress
+  have e1 : F3.GoInt.u64 ((cur.id : Int) + cfg.lookback) = ((F3.Validator.u64 (cur.id + cfg.lookback) : Nat) : Int) := by
+    rw [F3.Validator.u64, ← F3.Proofs.GenTie.u64_natCast]; rfl
+  have e2 : F3.GoInt.u64 ((v.inst : Int) + 1) = ((F3.Validator.u64 (v.inst + 1) : Nat) : Int) := by
+    rw [F3.Validator.u64, ← F3.Proofs.GenTie.u64_natCast]; rfl
+  have e3 : F3.GoInt.u64 ((v.round : Int) + 1) = ((F3.Validator.u64 (v.round + 1) : Nat) : Int) := by
+    rw [F3.Validator.u64, ← F3.Proofs.GenTie.u64_natCast]; rfl
+  rw [e1, e2, e3]
+  generalize F3.Validator.u64 (cur.id + cfg.lookback) = a
+  generalize F3.Validator.u64 (v.inst + 1) = b
+  generalize F3.Validator.u64 (v.round + 1) = c
+  simp only [DECIDE, QUALITY, Bool.or_eq_true, Bool.and_eq_true, decide_eq_true_eq]
+  repeat' split
+  all_goals (first | rfl | (exfalso; omega))
+
+-- non-vacuity: the four codes, and both wrap-arounds, are reached
+example : byProgress ⟨0, 10⟩ ⟨5, 2, PREPARE⟩ ⟨15, 0, QUALITY, 0, []⟩ = some .noCommittee ∧
+    byProgress ⟨0, 10⟩ ⟨5, 2, PREPARE⟩ ⟨3, 0, QUALITY, 0, []⟩ = some .tooOld ∧
+    byProgress ⟨0, 10⟩ ⟨5, 2, PREPARE⟩ ⟨5, 0, PREPARE, 0, []⟩ = some .notRelevant ∧
+    byProgress ⟨0, 10⟩ ⟨5, 2, PREPARE⟩ ⟨5, 1, PREPARE, 0, []⟩ = none ∧
+    byProgress ⟨0, 10⟩ ⟨5, 2, PREPARE⟩ ⟨4, 0, DECIDE, 0, []⟩ = none ∧
+    byProgress ⟨0, 10⟩ ⟨2 ^ 64 - 3, 0, PREPARE⟩ ⟨7, 0, QUALITY, 0, []⟩ = some .noCommittee ∧
+    byProgress ⟨0, 10⟩ ⟨0, 0, PREPARE⟩ ⟨2 ^ 64 - 1, 0, DECIDE, 0, []⟩ = some .noCommittee := by decide
+example : F3.Gen.Validate.validateByProgress 5 3 2 15 1 0 10 = 3 ∧ F3.Gen.Validate.validateByProgress 5 3 2 3 1 0 10 = 1 ∧
+    F3.Gen.Validate.validateByProgress 5 3 2 5 3 0 10 = 2 ∧ F3.Gen.Validate.validateByProgress 5 3 2 5 3 1 10 = 0 ∧
+    F3.Gen.Validate.validateByProgress (2 ^ 64 - 3) 3 0 7 1 0 10 = 3 := by decide
 
 end F3.Props.C05
